@@ -212,6 +212,17 @@ func c17Sites(r *wk.Rand, s *gen.Shape, raw any, env *gen.Env, path, chain []str
 		}
 		leaf("wrong-type", "not-an-object", len(s.Props) != 1)
 		out = append(out, c17Site{path: cp(path), chain: cp(chain), kind: "extra-key", keyName: "undeclared_zz", apply: func() { m["undeclared_zz"] = int64(1) }, native: true})
+		if len(path) > 0 {
+			// the same with a key that is not a string (what a CBOR or YAML decoder delivers for `8080:`)
+			out = append(out, c17Site{path: cp(path), chain: cp(chain), kind: "extra-key(not a string)", keyName: "8080", apply: func() {
+				am := map[any]any{}
+				for k, v := range m {
+					am[k] = v
+				}
+				am[int64(8080)] = int64(1)
+				set(am)
+			}})
+		}
 		// presence rules: remove or add one property so that exactly one rule of exactly one property is violated
 		setOf := func(mm map[string]any) map[string]bool {
 			set := map[string]bool{}
